@@ -163,4 +163,15 @@ example : ∃ log, HistR {} 2 0 0 (exProg.foldl (execTop {} 200) (World.init {} 
   histR_prog {} 2 0 0 200 exProg _ [] .init (by decide)
 example : vEv (exProg.foldl (execTop {} 200) (World.init {} 2 0 0)).events = [(false, 0), (false, 1), (true, 1), (true, 0)] := by decide
 
+/-- **In panic-free executions the allocation of every dropped value is released before the API call returns**: in every idle
+world of a panic-free history a value that is gone (dropped, moved out by `try_unwrap`, or never built) has no box any more —
+whatever its size or alignment (the model is parametric in the box sizes; the byte-level side is the layout grid of the run). -/
+theorem dropped_value_released_when_idle (c : Cfg) (nH nW nK : Nat) (w : World) (h : ReachableR c nH nW nK w)
+    (hs : w.stack = []) (x : Id) (hv : (w.heap x).valLive = false) : (w.heap x).boxLive = false := by
+  cases hb : (w.heap x).boxLive with
+  | false => rfl
+  | true =>
+    have := half_dead_is_owned c nH nW nK w h x hb hv
+    rw [hs] at this; simp [ownedDead] at this
+
 end RustCc.C03
